@@ -86,6 +86,7 @@ func (m *CPU) Run(app risc.Application) (int, error) {
 	cycle := 0
 	for {
 		cycle++
+		m.ctx.VerifTick(0, cycle)
 		log.Info(m.ctx, "Cycle %d", cycle)
 		m.decodeBus.Connect(cycle)
 		m.controlBus.Connect(cycle)
@@ -134,6 +135,7 @@ func (m *CPU) Run(app risc.Application) (int, error) {
 			cycle++
 			m.writeBus.Connect(cycle)
 			for !m.areWriteUnitsEmpty() || !m.writeBus.IsEmpty() {
+				m.ctx.VerifTick(1, cycle)
 				for _, wu := range m.writeUnits {
 					_ = wu.Cycle(wuReq{-1})
 				}
@@ -154,6 +156,7 @@ func (m *CPU) Run(app risc.Application) (int, error) {
 			for {
 				isEmpty := true
 				cycle++
+				m.ctx.VerifTick(2, cycle)
 				for _, eu := range m.executeUnits {
 					if !eu.isEmpty() {
 						isEmpty = false
@@ -173,6 +176,7 @@ func (m *CPU) Run(app risc.Application) (int, error) {
 				m.writeBus.Connect(cycle + 1)
 				for _, wu := range m.writeUnits {
 					for !wu.isEmpty() || !m.writeBus.IsEmpty() {
+						m.ctx.VerifTick(3, cycle)
 						_ = wu.Cycle(wuReq{sequenceID})
 					}
 				}
@@ -182,6 +186,7 @@ func (m *CPU) Run(app risc.Application) (int, error) {
 			}
 
 			log.Info(m.ctx, "\t️⚠️ Flush to %d", pc/4)
+			m.ctx.VerifEvent(risc.VerifKindFlush, sequenceID, pc, 0)
 			m.flush(pc)
 			cycle += latency.Flush
 			log.Info(m.ctx, "\tRegisters: %v", m.ctx.Registers)
